@@ -43,7 +43,7 @@ from enum import Enum
 import numpy as np
 
 from ._libtoasty import subsample, mid
-from .image import Image
+from .image import Image, get_format_vertical_parity_sign
 from .progress import progress_bar
 from .pyramid import Pos, tiles_at_depth
 
@@ -788,7 +788,16 @@ class ToastSampler(object):
         self._clobber = clobber
         self._format = format
         self._coordsys = coordsys
-        self._invert_into_tiles = pio.get_default_vertical_parity_sign() == 1
+
+        # The row order must match the format that the tiles are actually
+        # stored in. An explicit format only takes effect when clobbering;
+        # updates go through the pyramid's default format.
+        if format is not None and clobber:
+            parity = get_format_vertical_parity_sign(format)
+        else:
+            parity = pio.get_default_vertical_parity_sign()
+
+        self._invert_into_tiles = parity == 1
 
     def visit_callback(self, pos, tile):
         if tile is None:
